@@ -24,11 +24,14 @@ type progGen struct {
 	conds        []func() *yc.Expr
 	// hooks for extra statement kinds: name -> generator
 	extra map[string]func(g *progGen) *yc.Stmt
+	// linePrefix starts the text of every generated line and option label (characters that the lexer treats
+	// specially at the start of a line: a lone '/', a '-', a '<', a '=')
+	linePrefix string
 }
 
 func (g *progGen) line() *yc.LineSpec {
 	g.lineNo++
-	return yc.TextLine(fmt.Sprintf("L%d", g.lineNo))
+	return yc.TextLine(fmt.Sprintf("%sL%d", g.linePrefix, g.lineNo))
 }
 
 func (g *progGen) cond() *yc.Expr {
